@@ -281,7 +281,12 @@ fn check(plan: &Plan, out: &RunOut) -> CheckOut {
     // (file operations that were still going on at the signal or began after it take the time the
     // disk takes: not the program's doing)
     let disk_ns: u64 = w.history.iter().filter_map(|r| match r.ev { dsim::Ev::DiskWait { ns } if r.t + ns > t_sig && ns > dsim::MS => Some(ns), _ => None }).sum();
-    let deadline = t_sig + 3 * dsim::SEC + disk_ns;
+    // (a signal that arrives while some workers are still being started is judged from the moment
+    // the last of them is up: until then a worker has no loop in which to look at the flag, and how
+    // long start-up takes is the machine's doing — the flood baselines run on a node hundreds of
+    // times slower than nominal)
+    let t_up = b.worker_tasks.iter().filter_map(|(t, _)| w.history.iter().find(|r| r.task == Some(*t) && matches!(r.ev, dsim::Ev::TimerArm { .. })).map(|r| r.t)).max().unwrap_or(0);
+    let deadline = t_sig.max(t_up) + 3 * dsim::SEC + disk_ns;
     // worker threads still running at the deadline
     let ended_at = |t: usize| -> Option<u64> { w.history.iter().find(|r| matches!(&r.ev, dsim::Ev::TaskEnd { task, .. } if *task == t)).map(|r| r.t) };
     let stuck_ids: Vec<usize> = b.worker_tasks.iter().map(|(t, _)| *t).filter(|t| ended_at(*t).map(|e| e > deadline).unwrap_or(true)).collect();
